@@ -108,7 +108,7 @@ m("c10-refill-uses-max-window", "C10", P, "len(self.factory.windowPublish[cnx]) 
 m("c10-no-refill-at-connack", "C10", P, "        # the window may have room now for messages that were held back\n        self._refillPublish(dup=False)\n", "        # the window may have room now for messages that were held back\n")
 
 # ---- C11 clean session
-m("c11-release-window-skipped", "C11", P, "        for k in list(self.factory.windowPubRelease[self.addr]):\n            request = self.factory.windowPubRelease[self.addr][k]\n            del self.factory.windowPubRelease[self.addr][k]\n", "        for k in list(self.factory.windowPubRelease[self.addr]) if inherited else []:\n            request = self.factory.windowPubRelease[self.addr][k]\n            del self.factory.windowPubRelease[self.addr][k]\n")
+m("c11-release-window-skipped", "C11", P, "        for k in list(self.factory.windowPubRelease[self.addr]):\n            request = self.factory.windowPubRelease[self.addr].get(k)\n", "        for k in list(self.factory.windowPubRelease[self.addr]) if inherited else []:\n            request = self.factory.windowPubRelease[self.addr].get(k)\n")
 m("c11-failure-other-exception", "C11", P, "        if self._cleanStart:\n            self._purgeSession(reason)\n", "        if self._cleanStart:\n            self._purgeSession(MQTTSessionCleared())\n")
 m("c11-new-protocol-inherits-session-mode", "C11 C12", F, "        self.protocol = MQTTProtocol(self, addr)\n", "        old = getattr(self, 'protocol', None)\n        self.protocol = MQTTProtocol(self, addr)\n        if old is not None: self.protocol._cleanStart = old._cleanStart\n")
 m("c11-queue-not-purged-qos2", "C11 C12", P, "            if request.msgId:   # QoS 0 deferreds have already fired\n                request.deferred.errback(reason)\n", "            if request.msgId and request.qos == 1:   # QoS 0 deferreds have already fired\n                request.deferred.errback(reason)\n")
@@ -131,7 +131,7 @@ m("c13-pingresp-no-cancel", "C13 C15", B, "        if self._pingReq.alarm is not
 
 # ---- C14 gating
 m("c14-publisher-gains-subscribe", "C14", PB, "class ConnectedState(BaseConnectedState):\n\n    def publish(self, request):\n        return self.protocol.doPublish(request)\n", "class ConnectedState(BaseConnectedState):\n\n    def publish(self, request):\n        return self.protocol.doPublish(request)\n\n    def subscribe(self, request):\n        return self.protocol.doSubscribe(request)\n")
-m("c14-idle-accepts-publish", "C14 C18", P, "class IdleState(BaseIdleState):\n    pass\n", "class IdleState(BaseIdleState):\n    def publish(self, request):\n        return self.protocol.doPublish(request)\n")
+m("c14-idle-accepts-publish", "C14", P, "class IdleState(BaseIdleState):\n    pass\n", "class IdleState(BaseIdleState):\n    def publish(self, request):\n        return self.protocol.doPublish(request)\n")
 m("c14-connecting-accepts-subscribe", "C14", P, "    # The standard allows publishing data without waiting for CONNACK\n    def publish(self, request):\n        return self.protocol.doPublish(request)\n\n# ---------------------------------\n# MQTT Client Connected State Class\n# ---------------------------------\n\nclass ConnectedState(BaseConnectedState):\n\n    def publish(self, request):\n        return self.protocol.doPublish(request)\n\n    def subscribe(self, request):",
   "    # The standard allows publishing data without waiting for CONNACK\n    def publish(self, request):\n        return self.protocol.doPublish(request)\n\n    def subscribe(self, request):\n        return self.protocol.doSubscribe(request)\n\n# ---------------------------------\n# MQTT Client Connected State Class\n# ---------------------------------\n\nclass ConnectedState(BaseConnectedState):\n\n    def publish(self, request):\n        return self.protocol.doPublish(request)\n\n    def subscribe(self, request):")
 m("c14-subscriber-handles-puback", "C14", S, "    # QoS=2 packets\n    def handlePUBREL(self, response):\n        self.protocol.handlePUBREL(response)\n", "    # QoS=2 packets\n    def handlePUBREL(self, response):\n        self.protocol.handlePUBREL(response)\n\n    def handlePUBCOMP(self, response):\n        self.protocol.transport.write(b'\\xc0\\x00')\n")
@@ -169,8 +169,11 @@ m("c18-closing-keeps-keepalive", "C16", B, "        self.state = self.CLOSING\n 
 
 # ---- C19 independence
 m("c19-shared-default-container", "C19", F, "        v = self.windowPublish.get(addr, dict() )\n        self.windowPublish[addr] = v\n", "        v = self.windowPublish.get(addr, self.windowPublish.setdefault('shared', dict()) )\n        self.windowPublish[addr] = v\n")
-m("c19-purge-all-addresses", "C19", P, "        for k in list(self.factory.windowPublish[self.addr]):\n            request = self.factory.windowPublish[self.addr][k]\n            if inherited and request.protocol is self:\n                continue\n            del self.factory.windowPublish[self.addr][k]\n",
-  "        for addr in list(self.factory.windowPublish):\n          for k in list(self.factory.windowPublish[addr]):\n            request = self.factory.windowPublish[addr][k]\n            if inherited and request.protocol is self:\n                continue\n            del self.factory.windowPublish[addr][k]\n")
+m("c19-purge-all-addresses", "C19", P, "        for k in list(self.factory.windowPublish[self.addr]):\n            request = self.factory.windowPublish[self.addr].get(k)\n            if request is None:\n                continue\n            if inherited and request.protocol is self:\n                continue\n            del self.factory.windowPublish[self.addr][k]\n",
+  "        for addr in list(self.factory.windowPublish):\n          for k in list(self.factory.windowPublish[addr]):\n            request = self.factory.windowPublish[addr].get(k)\n            if request is None:\n                continue\n            if inherited and request.protocol is self:\n                continue\n            del self.factory.windowPublish[addr][k]\n")
+m("rev-7fa4954-purge-skips-queue", "C11 C12", P, "        for request in list(self.factory.queuePublishTx[self.addr]):\n            if inherited and request.protocol is self:\n                continue\n            if request not in", "        for request in []:\n            if inherited and request.protocol is self:\n                continue\n            if request not in")
+m("rev-c59b799-purge-keeps-alarm", "C13", P, "            if request.alarm is not None:   # sent again on this connection before the purge\n                request.alarm.cancel()\n                request.alarm = None\n", "")
+m("rev-7ff9ac1-refill-without-state-check", "C18", P, "        if self.state is not self.CONNECTED and self.state is not self.CONNECTING:\n            return  # an errback fired just before (e.g. by the purge at CONNACK) may have disconnected\n", "")
 m("c19-window-from-last-protocol", "C19", P, "        while queue and (not queue[0].msgId or len(self.factory.windowPublish[cnx]) < self._window):", "        while queue and (not queue[0].msgId or len(self.factory.windowPublish[cnx]) < self.factory.protocol._window):")
 m("c19-sub-window-counts-all-addresses", "C19", P, "        if len(self.factory.windowSubscribe[self.addr]) >= self._window:\n", "        if sum(len(w) for w in self.factory.windowSubscribe.values()) >= self._window:\n")
 
@@ -231,6 +234,7 @@ EQUIVALENT = {
  "c15-first-ping-after-k": "first PINGREQ k seconds after CONNACK still satisfies 'at least every k seconds'",
  "c17-counter-reset-by-buildprotocol": "makeId skips identifiers still in use, so restarting the counter cannot collide",
  "c08-linear-k-shrinks": "since fix 32 the delay is clamped to the previous one: a shrinking K gives constant gaps, which the statement allows",
+ "c18-deferred-before-refill": "since fix 29 the refill checks the state itself: a disconnect() from the callback makes it a no-op, and a publish() from the callback still goes behind what is held back",
  "c20-keepalive-65536": "encode16Int(65536) raises ValueError inside the same try block: still rejected atomically",
 }
 for _n in EQUIVALENT:
